@@ -1158,6 +1158,32 @@ def noexcept_refusing(ast):
     return dict(sorted(rows.items()))
 
 
+def catch_clauses(ast):
+    """every catch clause in a function of namespace ipr: (function, what is caught, does the handler end by rethrowing / throwing)"""
+    rows = []
+    for n, p in ast.nodes:
+        if n.get("kind") not in ("CXXMethodDecl", "FunctionDecl", "CXXConstructorDecl", "CXXDestructorDecl") or not has_body(n):
+            continue
+        names = [x for x in p if isinstance(x, str)]
+        if names[:1] != ["ipr"] or "iprv_uses" in names:
+            continue
+        for m, _ in walk(body_of(n)):
+            if m.get("kind") != "CXXCatchStmt":
+                continue
+            ch = children(m)
+            body = ch[-1] if ch else {}
+            stmts = children(body) if body.get("kind") == "CompoundStmt" else [body]
+            last = stmts[-1] if stmts else {}
+            while last.get("kind") in ("ExprWithCleanups",) and children(last):
+                last = children(last)[-1]
+            rethrows = last.get("kind") == "CXXThrowExpr"
+            caught = "..." if len(ch) < 2 or ch[0].get("kind") != "VarDecl" else ch[0].get("type", {}).get("qualType", "?")
+            row = [class_key(p) + "::" + n.get("name", "?"), caught, bool(rethrows)]
+            if row not in rows:
+                rows.append(row)
+    return rows
+
+
 def seq_gets(ast):
     """the positional access function get(Index) of every Sequence implementation: which safeguards its body uses"""
     rows = {}
@@ -1327,6 +1353,8 @@ def extract(workdir):
     facts["raw_derefs"] = raw_derefs(impl)
     facts["seq_gets"] = seq_gets(impl)
     facts["noexcept_refusing"] = noexcept_refusing(impl)
+    facts["catch_clauses"] = catch_clauses(impl) + [r for r in catch_clauses(asts["io"]) + catch_clauses(asts["utility"]) + catch_clauses(asts["traversal"])
+                                                     if r not in catch_clauses(impl)]
     facts["type_bodies"] = type_bodies(impl)
     facts["type_classes"] = type_classes(impl, facts["categories"], facts["type_bodies"])
     return facts, asts
